@@ -48,8 +48,15 @@ fn strategy(tier: Tier) -> BoxedStrategy<Case> {
             (Just(pl), Just(multi), Just(seed), vec((flen, vec(0u8..3, 0..3)), nfiles))
         })
         .prop_map(|(pl, multi, seed, fl)| {
-            let files: Vec<(String, usize)> =
-                fl.iter().enumerate().map(|(k, (l, dirs))| (path_for(k, dirs), *l)).collect();
+            // a fifth of the multi-file layouts: files of one directory that share a stem and differ only in the
+            // extension, temporary-looking extensions among them (a.part next to a.txt)
+            const EXTS: [&str; 6] = ["part", "txt", "tmp", "partial", "bak", "new"];
+            let stems = multi && seed % 5 == 0;
+            let files: Vec<(String, usize)> = fl
+                .iter()
+                .enumerate()
+                .map(|(k, (l, dirs))| if stems { (format!("s{}.{}", k / 3, EXTS[(k + (seed >> 8) as usize) % 6]), *l) } else { (path_for(k, dirs), *l) })
+                .collect();
             let name = if multi { "out".to_string() } else { files[0].0.clone() };
             let stale = if seed % 4 == 0 { 1 + ((seed >> 8) % 3) as u8 } else { 0 };
             Case { geo: Geometry { piece_len: pl, files, multi, name, content_seed: seed }, stale }
@@ -71,6 +78,7 @@ pub fn classify(geo: &Geometry, o: &mut Outcome) {
         pos = e;
     }
     o.class_if(geo.multi, "multi-file-form");
+    o.class_if(geo.files.len() >= 2 && geo.files.iter().any(|f| f.0.ends_with(".part") || f.0.ends_with(".tmp")), "same-stem-files-with-temporary-looking-extensions");
     o.class_if(geo.piece_len > 262144, "piece-length>256KiB");
     o.class_if(geo.total() == 0, "empty-content");
     o.nontrivial = o.classes.iter().any(|c| {
@@ -264,7 +272,7 @@ fn run_exhaustive(ctx: &WorkerCtx) -> WorkerReport {
 pub fn def() -> PropDef {
     PropDef {
         id: "C03",
-        rule: "(in a quarter of the layouts files of an earlier run - longer, shorter or of equal length - are already at the target paths) a generated torrent geometry (piece length 1..64 plus larger values, 0-8 files with lengths 0..3x piece length at distinct nested relative paths, single- and multi-file form, seeded random content) whose piece files are written by the harness; the real Extractor runs in a private directory. Oracle: piece_length(i) partitions total_length exactly as the reference geometry; after Done every listed file exists with exactly content[offset..offset+len], nothing unlisted is created, piece files are untouched; Fail on a consistent torrent is a violation. Non-trivial = some file lies strictly inside one piece at a non-zero offset, or crosses a piece boundary, or has length 0; distinct by hash of the case. Sub exhaustive enumerates all layouts with piece length 1..4, <=3 files, lengths 0..6.",
+        rule: "(a fifth of the multi-file layouts: files of one directory sharing a stem and differing only in the extension, temporary-looking ones - part, tmp, partial, bak, new - among them) (in a quarter of the layouts files of an earlier run - longer, shorter or of equal length - are already at the target paths) a generated torrent geometry (piece length 1..64 plus larger values, 0-8 files with lengths 0..3x piece length at distinct nested relative paths, single- and multi-file form, seeded random content) whose piece files are written by the harness; the real Extractor runs in a private directory. Oracle: piece_length(i) partitions total_length exactly as the reference geometry; after Done every listed file exists with exactly content[offset..offset+len], nothing unlisted is created, piece files are untouched; Fail on a consistent torrent is a violation. Non-trivial = some file lies strictly inside one piece at a non-zero offset, or crosses a piece boundary, or has length 0; distinct by hash of the case. Sub exhaustive enumerates all layouts with piece length 1..4, <=3 files, lengths 0..6.",
         assumptions: &[
             "`path` of a files entry is a byte string (the form rdest's metainfo reader accepts), not a BEP3 path list",
             "for a files list with exactly one entry either ./name/path or ./path is accepted here; the location question belongs to C04",
@@ -276,7 +284,7 @@ pub fn def() -> PropDef {
                 cases: |t| t.pick(20_000, 400_000),
                 run,
                 replay: |v| replay_case::<Case>(v, check),
-                min_class: &[("file-inside-one-piece-offset>0", 0.1407), ("file-crosses-piece-boundary", 0.2), ("zero-length-file", 0.1448), ("files-of-an-earlier-run-at-the-target-paths", 0.1)],
+                min_class: &[("file-inside-one-piece-offset>0", 0.1407), ("file-crosses-piece-boundary", 0.2), ("zero-length-file", 0.1448), ("files-of-an-earlier-run-at-the-target-paths", 0.1), ("same-stem-files-with-temporary-looking-extensions", 0.025)],
             },
         ],
     }
